@@ -1,6 +1,7 @@
 // C03 — comparisons agree with the mathematical order of the represented values
 #pragma once
 #include "../scaledval.h"
+#include "../sweep.h"
 
 namespace c03 {
 using namespace vf;
